@@ -563,59 +563,32 @@ def slot_terminators(repo: Repo, rep, P: str):
 
 
 # ----------------------------------------------------------------------------- R7
-def container_clone_ok(repo: Repo) -> Tuple[bool, List[str]]:
-    """Container.clone is write_to(buffer); buffer.seek(0); return read_sunvox_file(buffer) over one buffer."""
+def container_clone_ok(repo: Repo) -> Tuple[str, List[str]]:
+    """('ok' | 'wrong' | 'unknown', detail): Container.clone is write_to(buffer); buffer.seek(0); return read_sunvox_file(buffer)
+    over one buffer, decided by the buffer typestate of sa/bufstate.py."""
+    from .. import bufstate
     cont = repo.cls("Container", module="rv.container")
-    fn = repo.own_method(cont, "clone")
-    from .. import inline
-    from ..packed import single_defs, resolve_names
-    calls = [norm(c) for c in walk_no_nested(fn) if isinstance(c, ast.Call)]
-    cdefs = single_defs(fn)
-    with_alias = {}
-    for w_ in ast.walk(fn):
-        if isinstance(w_, ast.With):
-            for it_ in w_.items:
-                if isinstance(it_.optional_vars, ast.Name) and isinstance(it_.context_expr, ast.Name):
-                    with_alias[it_.optional_vars.id] = it_.context_expr.id       # `with buf as f` (BytesIO returns itself)
-
-    def same_buffer(a: str, b: str) -> bool:
-        def root(x):
-            seen = set()
-            while x not in seen:
-                seen.add(x)
-                if x in with_alias:
-                    x = with_alias[x]
-                elif x in cdefs and isinstance(cdefs[x], ast.Name):
-                    x = cdefs[x].id
-                else:
-                    break
-            return x
-        return root(a) == root(b)
-    ok = False
-    wcalls = [c for c in ast.walk(fn) if isinstance(c, ast.Call) and norm(c.func) == "self.write_to" and len(c.args) == 1 and isinstance(c.args[0], ast.Name)]
-    rcalls = [c for c in ast.walk(fn) if isinstance(c, ast.Call) and norm(c.func).split(".")[-1] == "read_sunvox_file" and len(c.args) == 1
-              and isinstance(c.args[0], ast.Name)]
-    scalls = [c for c in ast.walk(fn) if isinstance(c, ast.Call) and isinstance(c.func, ast.Attribute) and c.func.attr == "seek" and len(c.args) == 1
-              and norm(c.args[0]) == "0" and isinstance(c.func.value, ast.Name)]
-    rets = [resolve_names(s.value, cdefs) for s in walk_no_nested(fn) if isinstance(s, ast.Return) and s.value is not None]
-    if len(wcalls) == 1 and len(rcalls) == 1 and scalls:
-        b = wcalls[0].args[0].id
-        ok = same_buffer(rcalls[0].args[0].id, b) and any(same_buffer(c.func.value.id, b) for c in scalls) \
-            and inline.pos(wcalls[0]) < min(inline.pos(c) for c in scalls if same_buffer(c.func.value.id, b)) < inline.pos(rcalls[0]) \
-            and len(rets) == 1 and isinstance(rets[0], ast.Call) and norm(rets[0].func).split(".")[-1] == "read_sunvox_file"
-    return ok, calls
+    verdict, val, events = bufstate.clone_verdict(repo, cont, "clone")
+    if verdict == "ok" and val != bufstate.Loaded("self"):
+        return "wrong", [f"clone returns {val}, not the container that was loaded"] + events
+    if verdict == "wrong":
+        return "wrong", [val.reason] + events
+    return verdict, events
 
 
 def clone_rule(repo: Repo, rep, P: str):
     cont = repo.cls("Container", module="rv.container")
     rel = cont.file.rel
     fn = repo.own_method(cont, "clone")
-    ok, calls = container_clone_ok(repo)
-    if ok:
-        rep.ok(f"{P}.R7", f"{rel}:Container.clone", "write_to(f); f.seek(0); return read_sunvox_file(f)", "clone = save then load")
+    verdict, calls = container_clone_ok(repo)
+    if verdict == "ok":
+        rep.ok(f"{P}.R7", f"{rel}:Container.clone", "; ".join(calls)[:160], "clone = save then load (buffer typestate: written, rewound, loaded)")
+    elif verdict == "wrong":
+        rep.violation(f"{P}.R7", f"{rel}:Container.clone", "; ".join(calls[1:])[:160],
+                      "Container.clone must be write-then-read of the same buffer: " + calls[0], f"{rel}:{fn.lineno}")
     else:
-        rep.violation(f"{P}.R7", f"{rel}:Container.clone", "; ".join(calls)[:160],
-                      "Container.clone must be write-then-read of the same buffer", f"{rel}:{fn.lineno}")
+        rep.inconclusive(f"{P}.R7", f"{rel}:Container.clone", "; ".join(calls)[:200], "clone is not of a recognised save-and-load shape",
+                         f"{rel}:{fn.lineno}")
     wt = repo.own_method(cont, "write_to")
     src = norm(wt)
     fparam = (shape.params(wt) or ["file"])[0]
